@@ -187,7 +187,30 @@ class RelabelInterp(ResultInterp):
         return super().truth_hook(v, node)
 
     # -- arithmetic -----------------------------------------------------------------------
+    def _promote(self, c1: str, k1: str, c2: str, k2: str) -> str:
+        from ..pointwise import PV, promote
+
+        return promote(PV(Poly(), c1, k1), PV(Poly(), c2, k2))
+
     def binop_hook(self, op, l, r, node):
+        if isinstance(l, VoxelArr) or isinstance(r, VoxelArr):
+            if isinstance(op, (ast.Add, ast.Mult, ast.Sub)):
+                def parts(x):
+                    if isinstance(x, VoxelArr):
+                        return x.value, x.amax, x.cont, "arr"
+                    v = self.lv(x)
+                    if v is None:
+                        return None
+                    return v.poly, v.poly, (v.cont if v.kind == "nps" else "py"), ("nps" if v.kind == "nps" else "py")
+                pa, pb = parts(l), parts(r)
+                if pa is not None and pb is not None:
+                    f = {ast.Add: lambda x, y: x + y, ast.Mult: lambda x, y: x * y, ast.Sub: lambda x, y: x - y}[type(op)]
+                    cont = self._promote(pa[2], pa[3], pb[2], pb[3])
+                    val, amax = f(pa[0], pb[0]), f(pa[1], pb[1])
+                    side = l.side if isinstance(l, VoxelArr) else r.side
+                    self.ev(node, f"label arithmetic {norm(node)[:60]}", amax, cont)
+                    return VoxelArr(side, val, cont, amax, fresh=True)
+            return Unknown("array arithmetic")
         a, b = self.lv(l), self.lv(r)
         if a is not None and b is not None:
             if isinstance(op, ast.Add):
@@ -326,6 +349,8 @@ class RelabelInterp(ResultInterp):
                 return Unknown("arange with unknown dtype")
             self.ev(node, "largest entry of the lookup table", n.poly - Poly.const(1), dt)
             return LUT(n.poly, dt)
+        if name == "numpy.unique" and args and isinstance(args[0], VoxelArr) and not kwargs:
+            return [LV(args[0].value, args[0].cont, "nps")]
         if name in ("numpy.all", "numpy.any") and args and isinstance(args[0], list) and all(isinstance(x, bool) for x in args[0]):
             return all(args[0]) if name.endswith("all") else any(args[0])
         if name in ("numpy.uint64", "numpy.int64", "numpy.uint32", "numpy.uint16", "numpy.uint8") and args and isinstance(args[0], LV):
@@ -350,8 +375,7 @@ class RelabelInterp(ResultInterp):
             nv = self.lv(v)
             if nv is None:
                 raise Undecided("masked store of a non-label")
-            if idx.arr is not base and idx.arr.value != base.value:
-                raise Undecided("mask computed from another array")
+            # a mask computed from another array of the same shape selects the same generic voxel
             if t:
                 self.ev(node, "in-place label replacement", nv.poly, base.cont)
                 base.value = nv.poly
